@@ -1359,6 +1359,11 @@ class Machine:
         if callee in self.COMPOSERS and self.composer_depth == 0 and not self.color_only and not self.passthrough and not self.quiet:
             # the composed file header of a section
             self.events['HDR_COMPOSED'] += 1
+            if g.REL not in ('DN', 'D'):
+                # the composed header is written although `handled != current` has not been established on this path
+                self.violate('HDR-UNGUARDED', path, 'the file header is composed and written on a path on which it has not been established that it was not '
+                             'written for this file pair already (handled %s current)' % {'E': '==', 'E0': '==', 'U': '?'}.get(g.REL, g.REL), g,
+                             self.F.span_of_call(c), callee, facet='REL=' + g.REL)
             if g.FH and g.SRC == self.SRCV.get('GitDiff'):
                 # only git output delimits its sections (the `diff ` line resets the bookkeeping); for plain `diff -u` input the
                 # guard is a comparison of names, which this analysis does not track
